@@ -77,5 +77,41 @@ CLAIMS = {
         "technique": "Coq proof (slice lemmas, C02 uniqueness) + generated accessor/position obligations + correspondence",
         "design_ref": "DESIGN.md §4 C11",
     },
+    "C12": {
+        "text": "Generic theorems for ANY registry contents: C12_index / C12_index_bic (the dict-of-lists index built by the model of "
+                "registry.build_index returns for every key exactly the entries carrying it, in file order; keys with empty/null "
+                "components are skipped), C12_choice (selection rule: a candidate; without branch code if any, else branch XXX, "
+                "else the first; a lone candidate is chosen; none -> InvalidBankCode), C12_invertible (every candidate lists the "
+                "bank code among its domestic bank codes and exists). On the bundled data: C12_candidates (candidates = non-empty "
+                "listed BICs, primaries first; unlisted -> InvalidBankCode) under the obligation that every registry BIC passes "
+                "the BIC model (vm_compute over all entries). IBAN-level bic/bank/bank names: correspondence over registry keys.",
+        "note": COMMON_NOTE + " Bank names stay in Python and are compared through entry ids.",
+        "technique": "Coq proof (fold_left refinement of the index to a filter spec, list lemmas) + data obligation over all bank entries + correspondence",
+        "design_ref": "DESIGN.md §4 C12",
+    },
+    "C17": {
+        "text": "C17_countries and C17_banks: the decidable predicates of Spec/RegistrySpec.v (structure string parses to exactly "
+                "bban_length positions; iban_length = +4 <= 34; two-capital country codes, no duplicates; positions in bounds and "
+                "pairwise disjoint; bank entry country in the table, BIC null/empty/ISO-9362-valid, bank code empty or conforming - "
+                "length and classes - to the country's bank-identifying field) evaluated by vm_compute over every row and every "
+                "entry the tree bundles now (exhaustive over the finite data, redone on every run). 'Every listed bank occurs in "
+                "a valid IBAN and is found again' is exercised through the real API for every entry (thorough) / 800 entries (quick). "
+                "National-algorithm field requirements are part of C06.",
+        "note": COMMON_NOTE,
+        "technique": "Coq: exhaustive evaluation of decidable well-formedness predicates over the regenerated data (forallb = true by vm_compute) + API stream",
+        "design_ref": "DESIGN.md §4 C17",
+    },
+    "C18": {
+        "text": "Generic theorems over arbitrary JSON: C18_merge_get (one-level law of merge_dicts: both dicts -> recursive, else the "
+                "later value, one-sided keys kept), C18_overlay_only_named, C18_order_independent (every path lookup is independent "
+                "of the hash-seed-dependent set iteration order), C18_fold / C18_concat (registry.get = left fold of merge / "
+                "concatenation in the given file order), C18_parse_v2 (one entry per listed value, other keys kept, primary "
+                "defaulted). C18_effective_table: the table all other theorems use equals, field by field, the model of "
+                "registry.get applied to the tree's raw JSON files (vm_compute). The bank list and the real registry.get on "
+                "scratch directories are tied by correspondence.",
+        "note": COMMON_NOTE + " File-name sorting and v2 detection by stem are done by the harness when feeding the model (the model takes files in order with a v2 flag).",
+        "technique": "Coq proof over a JSON inductive with an explicit set-order oracle + data obligation + correspondence on scratch registries",
+        "design_ref": "DESIGN.md §4 C18",
+    },
 }
 NOT_APPLICABLE = {}
